@@ -452,7 +452,11 @@ def check(ctx):
         casep = case | {"prev_model": model_json(msp), "prev_form": prev_form}
         casec = case | {"copy": copy_kind}
         if st_ref != "ok":
-            raise InternalError("hand-unrolled recurrence raised: " + st_ref)
+            # the recurrence is unrolled from the features' own single-step values: when those cannot even be concatenated with
+            # the previous output (a feature returning the wrong shape at one step) the library, not the harness, is at fault
+            ctx.fail("the hand-unrolled recurrence out_i = model(features_i, out_{i-1}) cannot be evaluated from the features' single-step values",
+                     casep, key="compute_hedge:prev_hedge:recurrence:error" + cls, detail=st_ref)
+            continue
         if st3 == "ok" and not same_hedge(out3, ref3):
             ctx.fail("a hedger consuming prev_hedge does not follow out_i = model(features_i, out_{i-1}), out_{-1} = 0", casep,
                      key="compute_hedge:prev_hedge:recurrence" + cls, detail={"hedger": out3.tolist(), "by_hand": ref3.tolist()})
